@@ -48,9 +48,5 @@ extern int hselect_mode;
 extern long hselect_calls;
 
 typedef int (*engine_fn)(FILE *in, FILE *out);
-int eng_b64(FILE *in, FILE *out);
-int eng_jid(FILE *in, FILE *out);
-int eng_hash(FILE *in, FILE *out);
-int eng_dns(FILE *in, FILE *out);
 
 #endif
